@@ -569,8 +569,9 @@ def __Solver_2(simu: "_Simu", problemType: "ProblemType"):
     A = A.tolil()
     b = b.tolil()
 
-    dofs_Dirichlet = simu.Bc_dofs_Dirichlet(problemType)
-    values_Dirichlet = simu.Bc_values_Dirichlet(problemType)
+    # one multiplier per constrained dof: a dof entered several times holds the sum of its values (stored in x)
+    dofs_Dirichlet = np.unique(simu.Bc_dofs_Dirichlet(problemType))
+    values_Dirichlet = x[dofs_Dirichlet, 0].toarray().ravel()
 
     list_Bc_Lagrange = simu.Bc_Lagrange
 
